@@ -536,9 +536,34 @@ def apply_buffer_op(buf, name, arg):
     return getattr(buf, name)(arg)
 
 
+def check_buffer_reinit(ctx, buf, model, arg, case, step):
+    """__init__ called again on a live object (what Python allows any caller to do): a new buffer on success; when the request is unusable
+    (a size no allocator can satisfy, an out-of-range integer) a Python exception, and the object is either what it was or an empty buffer"""
+    kind, v = arg
+    try:
+        if kind == "capacity":
+            buf.__init__(capacity=v)
+            new = BufModel(capacity=v)
+        else:
+            data = bytes((3 * i + 1) & 0xFF for i in range(v))
+            buf.__init__(data=data)
+            new = BufModel(data=data)
+    except Exception as e:  # noqa
+        cap, pos = buf.capacity, buf.tell()
+        if (cap, pos) == (0, 0):
+            model.mem, model.cap, model.pos = [], 0, 0
+        elif (cap, pos) != (model.cap, model.pos):
+            ctx.violation("buffer-inconsistent-after-rejected-reinit", "step %d: __init__(%s=%r) on a live buffer raised %r and left capacity=%d position=%d (before: capacity %d, position %d)" % (step, kind, v, e, cap, pos, model.cap, model.pos), case)
+        return "err"
+    model.mem, model.cap, model.pos = new.mem, new.cap, new.pos
+    return "ok"
+
+
 def check_buffer_step(ctx, buf, model, name, arg, case, step, div):
     """One op on the object and on the model.  Memory-safety findings are violations; functional divergences from the
     model (wrong value, in-bounds op refused) are appended to `div` - they concern C04 only when a rejected op caused them."""
+    if name == "reinit":
+        return check_buffer_reinit(ctx, buf, model, arg, case, step)
     before = (model.pos, list(model.mem))
     exp = model.op(name, arg)
     try:
@@ -659,9 +684,11 @@ def buffer_machine(ctx, examples, shard):
             return st.tuples(ints, ints)
         if name == "push_bytes":
             return data
+        if name == "reinit":
+            return st.one_of(st.tuples(st.just("capacity"), st.one_of(st.integers(0, 64), st.sampled_from([1 << 62, (1 << 63) - 1, 1 << 64]))), st.tuples(st.just("data"), st.integers(0, 64)))
         return ints
 
-    names = ["tell", "eof", "capacity", "data", "seek", "seek", "data_slice", "pull_bytes", "pull_uint8", "pull_uint16", "pull_uint32", "pull_uint64", "pull_uint_var", "pull_uint_var", "push_bytes", "push_bytes", "push_uint8", "push_uint16", "push_uint32", "push_uint64", "push_uint_var", "push_uint_var"]
+    names = ["reinit", "tell", "eof", "capacity", "data", "seek", "seek", "data_slice", "pull_bytes", "pull_uint8", "pull_uint16", "pull_uint32", "pull_uint64", "pull_uint_var", "pull_uint_var", "push_bytes", "push_bytes", "push_uint8", "push_uint16", "push_uint32", "push_uint64", "push_uint_var", "push_uint_var"]
     op = st.sampled_from(names).flatmap(lambda n: st.tuples(st.just(n), vals(n)))
     ctor = st.one_of(
         st.tuples(st.just("capacity"), st.integers(0, 64)), st.tuples(st.just("capacity"), st.integers(0, 64)), st.tuples(st.just("positional"), st.integers(0, 16)),
